@@ -41,6 +41,14 @@ def instances(tier, seed):
             if op == "compress" and (len(cnt) > (3 if tier == "thorough" else 2) or max(cnt) > 1):
                 continue      # chained SVD contracts: kept to small trees (time budget)
             out.append(dict(op=op, kinds=kinds, parents=list(par), counts=list(cnt), label="%s parents=%s counts=%s" % (op, list(par), list(cnt)), key=op))
+    # long thin trees (11 half-spin sets, bond dimension 1): node and basis indices with two digits
+    long_shapes = {"chain": ([i for i in range(10)], [1] * 11), "binary": ([(i - 1) // 2 for i in range(1, 11)], [1] * 11),
+                   "comb": ([0, 0, 2, 2, 4, 4, 6, 6, 8, 8, 10, 10], [0, 1, 0, 1, 1, 1, 1, 1, 1, 1, 1, 1, 1])}
+    for sname, (par, cnt) in long_shapes.items():
+        for op in ("add", "scale_copy", "canonicalise", "norm", "rdm1", "dumpload", "child_order", "push_child"):
+            if op == "child_order" and sname != "comb":
+                continue      # chain: nothing to reorder; binary tree: the reordered expectation value stays undecided within the budget
+            out.append(dict(op=op, kinds=tuple(["s"] * 11), parents=list(par), counts=list(cnt), bond=1, label="%s long %s tree (11 spins, %d nodes)" % (op, sname, len(cnt)), key=op + "/long"))
     for n in (2, 3):
         out.append(dict(op="from_mps", n=n, label="from_mps n=%d" % n, key="from_mps"))
     for kinds2, par, cnt in [(("e", "e", "e"), (0, 0), (1, 1, 1)), (("e", "e", "e"), (0, 1), (1, 1, 1)), (("e", "w", "e"), (0, 0, 1), (0, 1, 1, 1))]:
@@ -148,7 +156,7 @@ def make_harness(P):
             _, undo = stubs.lapack_contract(ctx, modules=("renormalizer.mps.svd_qn",))
         try:
             if op == "add":
-                b = treelib.build_ttns(ctx, "b", tree, 2)
+                b = treelib.build_ttns(ctx, "b", tree, P.get("bond", 2))
                 vb = treelib.dense_ttns(b)
                 c = a.add(b)
                 ctx.check("add: dense(a + b) = dense(a) + dense(b)", ctx.eq(treelib.dense_ttns(c), va + vb))
